@@ -122,6 +122,37 @@ def run(repo, chk):
             if (err2 is None) != wantc:
                 chk.fail('C07.K2', f'coerce {D.name(s)} -> {D.name(t)}', f'coerce() {"accepts" if err2 is None else "rejects"}; expected '
                          f'{"accept" if wantc else "reject"}', EXPRESSIONS)
+    # cast chains: a lossy cast (to byte / to bool) must survive a following cast
+    n_chain = 0
+    for s in D.scalars[:4]:
+        for t in (DT.BYTE, DT.BOOL, DT.INT):
+            if s == t or not expected_cast(D, s, t):
+                continue
+            inner, err = D.try_(lambda: D.probe(s).cast(t))
+            if err or inner is None:
+                continue
+            for u in (DT.INT, DT.BYTE, DT.BOOL):
+                if u == t or not expected_cast(D, t, u):
+                    continue
+                outer, err = D.try_(lambda: inner.cast(u))
+                n_chain += 1
+                if err or outer is None:
+                    chk.fail('C07.K1', f'(({D.name(s)}) is {D.name(t)}) is {D.name(u)}', f'cast chain rejected: {err}', EXPRESSIONS)
+                    continue
+                lossy = t in (DT.BYTE, DT.BOOL) and s != DT.BOOL and not (s == DT.BYTE and t == DT.BYTE)
+                if lossy:
+                    x, found = outer, False
+                    for _ in range(6):
+                        if x is inner:
+                            found = True
+                            break
+                        x = getattr(x, 'expr', None)
+                        if x is None:
+                            break
+                    chk.expect(found and outer.type == u, 'C07.K1', f'(({D.name(s)}) is {D.name(t)}) is {D.name(u)}',
+                               f'the narrowing cast to {D.name(t)} was dropped from the tree ({type(outer).__name__}): '
+                               f'`(x is {D.name(t)}) is {D.name(u)}` would then keep the bits the inner cast must discard', EXPRESSIONS)
+    chk.count('cast_chains', n_chain)
     chk.count('type_pairs', n1)
     if not any(v['rule'] == 'C07.K1' for v in chk.violations):
         chk.ok('C07.K1', 'cast relation', f'{n1} (source, target) pairs agree with the documented table')
@@ -356,6 +387,21 @@ def run(repo, chk):
         got = resolve(overloads, args)
         chk.expect(got == want, 'C07.K6', label, f'bound to {tuple(map(str, got)) if got else "no overload (rejected)"}; expected '
                    f'{tuple(map(str, want)) if want else "rejection"}', EXPRESSIONS)
+    # typechecking a function must not move it in the overload table ("first declared" is declaration order)
+    e = ns['Environment'].empty()
+    fa, fb, fc = Stub(DT.EMPTY, Ident('h'), (DT.INT,)), Stub(DT.EMPTY, Ident('h'), (DT.STRING,)), Stub(DT.EMPTY, Ident('h'), (DT.BOOL,))
+    e.add_funcs([fa, fb, fc])
+    before = list(e.funcs[Ident('h')])
+    fa.evaluate(e)
+    mid = list(e.funcs[Ident('h')])
+    fb.evaluate(e)
+    fc.evaluate(e)
+    after = list(e.funcs[Ident('h')])
+    chk.expect(before == mid == after, 'C07.K6', 'FuncDeclaration.evaluate keeps declaration order',
+               f'overload order {[tuple(map(str, s)) for s in before]} became {[tuple(map(str, s)) for s in mid]} after typechecking the '
+               'first overload: a call between two overloads would then bind by a rotated order', PROGRAM)
+    chk.expect(all(type(v).__name__ == 'FuncDeclaration' and v is not o for v, o in zip(e.funcs[Ident('h')].values(), (fa, fb, fc))),
+               'C07.K6', 'FuncDeclaration.evaluate updates its entry', 'the table must hold the typechecked declarations', PROGRAM)
     # builtins are declared before user functions
     prog = repo.find_class(PROGRAM, 'Program')
     ev = [n for n in prog.body if isinstance(n, ast.FunctionDef) and n.name == 'evaluate']
